@@ -116,6 +116,7 @@ class Overlay:
 
 HIST_OPS = ['create_dir', 'write', 'append', 'remove_file', 'remove_dir', 'remove_dir_all', 'create_dir_all']
 OBS_OPS = ['read', 'metadata', 'exists', 'read_dir', 'read_to_string']
+TIME_OPS = ['set_time_c', 'set_time_m', 'set_time_a']
 
 
 def run_history_case(prog, params):
@@ -170,7 +171,9 @@ def run_history_case(prog, params):
                 if props & {'C09', 'C01'}:
                     check_outcome(props, out, exp, op, key_base, findings, sr, t, v, prop='C09')
                     ok_contract = len(findings) == nf
-                if exp.status in ('ok', 'ok_or_utf8') and o.ok:
+                if exp.status == 'either':
+                    t_next, what = t, 'changed_by_setter'
+                elif exp.status in ('ok', 'ok_or_utf8') and o.ok:
                     t_next, what = exp.tree, 'post_state'
                 elif exp.status == 'err' and not o.ok:
                     t_next, what = t, 'changed_on_failure'
@@ -194,12 +197,17 @@ def run_history_case(prog, params):
                 diffs, obligations = compare_tree(sr, u, snap, t_next)
                 for dv, kind, detail in diffs:
                     was_removed = dv in removed
-                    if kind == 'listing' and 'foreign' in detail:
+                    if kind == 'foreign':
                         pr, sym = 'C10', 'bookkeeping_visible@%s' % ('root' if dv == 'R' else 'dir')
                     elif was_removed and t_next.kind(dv) == 'absent':
                         pr, sym = 'C10', 'removed_entry_visible:%s' % kind
                     elif kind in ('bytes', 'len') and dv in removed:
                         pr, sym = 'C10', 'recreated_not_fresh'
+                    elif kind == 'listing' and any(u.parent(rv) == dv for rv in removed | ({v} if op.startswith('remove') and o.ok else set())):
+                        # a listing of a directory from which something was removed is wrong: both properties speak about it
+                        pr, sym = 'C10', 'listing_after_removal'
+                        if 'C09' in props:
+                            findings.append(make_finding('C09', key_base + '|%s:%s' % (what, kind), '%s after %s %s: %s %s' % (what, op, v, dv, detail), sr))
                     else:
                         pr, sym = 'C09', '%s:%s' % (what, kind)
                     if pr in props:
